@@ -88,8 +88,6 @@ EXPLICIT_H = False
 
 
 def _key(what, kind, c):
-    if EXPLICIT_H:
-        return "C17:explicit-hydrogen-inside-token-shifts-descriptor-atoms"
     return f"C17:{what}:{kind}:{c}"
 
 
